@@ -64,6 +64,7 @@ type Frame struct {
 	isDeferred bool
 	freshOverride string
 	calleePkg string
+	hypMode   bool
 }
 
 type abortErr struct{ msg string }
@@ -206,6 +207,9 @@ func (f *Frame) run(entry *BState) {
 func (f *Frame) runBlocks(blocks []*ssa.BasicBlock, entry *BState) {
 	for _, b := range blocks {
 		var st *BState
+		if f.top {
+			f.s.curBlk = b
+		}
 		if b == f.fn.Blocks[0] {
 			st = &BState{entry.reach, entry.heap.clone()}
 		} else if li := f.loops[b]; li != nil && !(f.dryHeader == b) {
@@ -220,6 +224,9 @@ func (f *Frame) runBlocks(blocks []*ssa.BasicBlock, entry *BState) {
 		}
 		f.cur = st
 		f.curBlock = b
+		if f.top {
+			f.s.curBlk = b
+		}
 		for _, ins := range b.Instrs {
 			f.instr(ins)
 		}
